@@ -873,3 +873,48 @@ fn pending_refusal(blocked: bool) {
 }
 pub fn c05_refusal_sent() { pending_refusal(false) }
 pub fn c05_refusal_blocked() { pending_refusal(true) }
+
+/// C07.mark (per stream): when the connection ends (`handle_error`, `recv_eof`) every
+/// task parked on the stream - send side (capacity, poll_ready of a pending-open
+/// request, poll_reset), receive side, push side - is woken, whatever state the stream
+/// is in (a request reset while it waited for a slot is already `Closed`, but
+/// `SendRequest::poll_ready` still waits on its send task).
+fn mark_wakes_all(lo: u8, hi: u8, eof: bool) {
+    let mut w = rworld(3, false);
+    {
+        let mut p = w.store.resolve(w.key);
+        p.state = st_h::any_state_in(StreamId::from(ID), lo, hi);
+        let wk0 = cw::waker(0);
+        let c0 = Context::from_waker(&wk0);
+        p.wait_send(&c0);
+        p.recv_task = Some(cw::waker(1));
+        p.push_task = Some(cw::waker(2));
+    }
+    let w0 = (cw::wakes(0), cw::wakes(1), cw::wakes(2));
+    let was_closed = {
+        let p = w.store.resolve(w.key);
+        p.state.is_closed()
+    };
+    {
+        let mut p = w.store.resolve(w.key);
+        if eof {
+            w.recv.recv_eof(&mut p);
+        } else {
+            let err = Error::library_go_away(Reason::PROTOCOL_ERROR);
+            w.recv.handle_error(&err, &mut p);
+            std::mem::forget(err);
+        }
+    }
+    let p = w.store.resolve(w.key);
+    assert!(p.state.is_closed(), "stream still open after the connection ended");
+    assert!(cw::wakes(0) == w0.0 + 1, "C07: send-side waiter (capacity / poll_ready / poll_reset) not woken when the connection ended");
+    assert!(cw::wakes(1) == w0.1 + 1, "C07: receive-side waiter not woken when the connection ended");
+    assert!(cw::wakes(2) == w0.2 + 1, "C07: push waiter not woken when the connection ended");
+    kani::cover!(was_closed, "already_closed");
+    kani::cover!(true, "end");
+    rforget(w);
+}
+pub fn c07_mark_error_live() { mark_wakes_all(0, 5, false) }
+pub fn c07_mark_error_closed() { mark_wakes_all(6, 11, false) }
+pub fn c07_mark_eof_live() { mark_wakes_all(0, 5, true) }
+pub fn c07_mark_eof_closed() { mark_wakes_all(6, 11, true) }
